@@ -5,6 +5,7 @@ import OsacaVerif.Lemmas.LCDPaths
 import OsacaVerif.Lemmas.LCDPost
 import OsacaVerif.Lemmas.DGEdges
 import OsacaVerif.Lemmas.Winding
+import OsacaVerif.Lemmas.EdgeLocal
 /-
   C05 — Loop-carried dependencies are exactly the cross-iteration dependency cycles.
   (Model: `LCD.lcd`; independent oracle: `Spec.cycles`.)
@@ -328,6 +329,51 @@ example :
     normPath 1000 [(4, 1), (7, 2), (1003, 4)] = [(3, 4), (4, 1), (7, 2)] ∧
     (lcd .x86 false {} 1000 k).map (fun e => (e.lines, e.latency)) = [([3, 4, 7], 7)] := by
   decide +kernel
+
+/-! ### locality of the edge relation -/
+
+/-- **dg_local** (∀ well-formed kernels, ∀ decompositions `K = pre ++ p :: seg ++ c :: more`): the
+    edge `p → c` is in the graph of `K` with weight `w` iff `depW p seg c = some w`, where `depW`
+    looks only at the producer, the segment strictly between, and the consumer — never at `pre` or
+    `more`, and never at line numbers (`depW_erase`). -/
+theorem dg_local (isa : Isa) (fd : Bool) (par : Params) (pre : List Ins) (p : Ins) (seg : List Ins) (c : Ins)
+    (more : List Ins) (hwf : WFKernel (pre ++ p :: (seg ++ c :: more))) (w : Rat) :
+    (({ src := ⟨p.line, false⟩, dst := ⟨c.line, false⟩, w := w } : Edge) ∈
+        create isa fd par (pre ++ p :: (seg ++ c :: more)) ↔ depW isa fd par p seg c = some w) ∧
+    depW isa fd par (eraseLine p) (seg.map eraseLine) (eraseLine c) = depW isa fd par p seg c :=
+  ⟨edge_local isa fd par pre p seg c more hwf w, depW_erase isa fd par p seg c⟩
+
+/-- **dg_local_copies**: in the doubled kernel the sub-graphs on the first copy and on the second
+    copy both coincide with the graph of the kernel itself: the edge `p → c` of `k`, the edge
+    `p → c` of the first copy and the edge `p + off → c + off` of the second copy exist together and
+    carry the same weight. -/
+theorem dg_local_copies (isa : Isa) (fd : Bool) (par : Params) (floor : Nat) (pre : List Ins) (p : Ins)
+    (seg : List Ins) (c : Ins) (more : List Ins) (hwf : WFKernel (pre ++ p :: (seg ++ c :: more))) (w : Rat) :
+    let k := pre ++ p :: (seg ++ c :: more)
+    let off := offsetOf floor k
+    ((({ src := ⟨p.line, false⟩, dst := ⟨c.line, false⟩, w := w } : Edge) ∈ create isa fd par k) ↔
+      depW isa fd par p seg c = some w) ∧
+    ((({ src := ⟨p.line, false⟩, dst := ⟨c.line, false⟩, w := w } : Edge) ∈ create isa fd par (double off k)) ↔
+      depW isa fd par p seg c = some w) ∧
+    ((({ src := ⟨p.line + off, false⟩, dst := ⟨c.line + off, false⟩, w := w } : Edge) ∈
+      create isa fd par (double off k)) ↔ depW isa fd par p seg c = some w) := by
+  intro k off
+  have hwfK := double_wf floor k hwf
+  refine ⟨edge_local isa fd par pre p seg c more hwf w, ?_, ?_⟩
+  · have e : double off k = pre ++ p :: (seg ++ c :: (more ++ k.map (fun i => { i with line := i.line + off }))) := by
+      simp [double, k]
+    rw [e] at hwfK ⊢
+    exact edge_local isa fd par pre p seg _ _ hwfK w
+  · let sh : Ins → Ins := fun i => { i with line := i.line + off }
+    have e : double off k = (k ++ pre.map sh) ++ sh p :: (seg.map sh ++ sh c :: more.map sh) := by
+      simp [double, k, sh]
+    rw [e] at hwfK ⊢
+    have h := edge_local isa fd par (k ++ pre.map sh) (sh p) (seg.map sh) (sh c) (more.map sh) hwfK w
+    have h2 : depW isa fd par (sh p) (seg.map sh) (sh c) = depW isa fd par p seg c := by
+      rw [← depW_erase isa fd par (sh p), ← depW_erase isa fd par p, List.map_map]
+      rfl
+    rw [← h2]
+    exact h
 
 -- non-vacuity: a two-instruction accumulation loop has exactly one loop-carried cycle
 example :
